@@ -403,12 +403,15 @@ def St.after (st : St) (s : Step) : St := ⟨s.sv, st.log ++ s.notes⟩
 def stepEvent (env : Env) (pruning : Int) (st : St) (e : Event) : Step :=
   workStep env pruning st.sv e.host e.dgram e.now
 
-/-- the loop of `_work` over a history of datagrams: stops when an iteration does not survive -/
-def run (env : Env) (pruning : Int) : St → List Event → St × Bool
-  | st, [] => (st, true)
-  | st, e :: es =>
-    if (stepEvent env pruning st e).alive then run env pruning (st.after (stepEvent env pruning st e)) es
-    else (st.after (stepEvent env pruning st e), false)
+/-- the loop of `_work` over a history of datagrams, for as long as it keeps running -/
+def run (env : Env) (pruning : Int) : St → List Event → St
+  | st, [] => st
+  | st, e :: es => run env pruning (st.after (stepEvent env pruning st e)) es
+
+/-- did every iteration leave the loop running -/
+def allAlive (env : Env) (pruning : Int) : St → List Event → Bool
+  | _, [] => true
+  | st, e :: es => (stepEvent env pruning st e).alive && allAlive env pruning (st.after (stepEvent env pruning st e)) es
 
 /-! ### the TCP front end (`TCPRegistryServer._recv` / `_send`) -/
 
